@@ -141,6 +141,23 @@ func (e *End) Write(ctx context.Context, r *Rpc) error {
 		return e.writeErr
 	}
 	defer func() { <-e.wlock }()
+	if e.wire != nil {
+		// Log and send in one step with respect to the tap, so that the peer can never act on an
+		// envelope (and have its response logged) before the envelope itself is in the log. Only when
+		// the buffer is full does the write fall back to the blocking path below (log after send).
+		e.wire.mu.Lock()
+		select {
+		case e.out <- w:
+			e.wire.evs = append(e.wire.evs, WireEv{e.dirOut, tap})
+			e.wire.mu.Unlock()
+			e.mu.Lock()
+			e.nWritten++
+			e.mu.Unlock()
+			return nil
+		default:
+			e.wire.mu.Unlock()
+		}
+	}
 	select {
 	case e.out <- w:
 		if e.wire != nil {
